@@ -1891,3 +1891,55 @@ Theorem exec_absent_no_deadline d now nowms args hint k : db_wf d ->
   db_get (snd (exec d now nowms args hint)) k = None ->
   db_ttl (snd (exec d now nowms args hint)) k = None.
 Proof. intros W G. apply wf_ttl_none; [apply exec_wf; exact W|exact G]. Qed.
+
+(* ---- SET k v PX n: the deadline for every n >= 1, up to MaxInt64 ---- *)
+Lemma ceil_div_1000 n : 0 <= n -> (n + 999) / 1000 = n / 1000 + (if n mod 1000 =? 0 then 0 else 1).
+Proof.
+  intros Hn.
+  pose proof (Z.div_mod n 1000 ltac:(lia)) as D. pose proof (Z.mod_pos_bound n 1000 ltac:(lia)) as Bd.
+  set (q := n / 1000) in *. set (s := n mod 1000) in *.
+  destruct (Z.eqb_spec s 0) as [Z0|Z0].
+  - symmetry. apply (Z.div_unique (n + 999) 1000 (q + 0) 999); lia.
+  - symmetry. apply (Z.div_unique (n + 999) 1000 (q + 1) (s - 1)); lia.
+Qed.
+
+(* the option vector of "PX n" alone *)
+Lemma set_parse_px px nb n : lower px = B "px" -> atoi64 nb = Some n ->
+  set_parse [px; nb] setopts0 = Some (mkSetOpts false false false false None (Some n) None).
+Proof. intros E A. cbn [set_parse]. rewrite E. cbn. rewrite A. reflexivity. Qed.
+
+(* SET k v PX n on a key that is absent or holds a string: for EVERY n >= 1 that parses as an
+   int64 -- there is no overflow anywhere: n/1000 + 1 <= 9223372036854776 -- the key gets the value
+   and the deadline  now + n/1000 + (1 if n is not a multiple of 1000), i.e. now + ceil(n/1000);
+   in particular TTL right afterwards is ceil(n/1000), never negative, never smaller. *)
+Theorem exec_set_px_deadline d now nowms c k v px nb n hint : db_wf d ->
+  lower c = B "set" -> lower px = B "px" -> atoi64 nb = Some n -> 1 <= n ->
+  match view d now k with None => True | Some (VStr _, _) => True | Some _ => False end ->
+  let res := exec d now nowms [c; k; v; px; nb] hint in
+  fst res = rOK /\
+  raw_view (snd res) k = Some (VStr v, Some (now + n / 1000 + (if n mod 1000 =? 0 then 0 else 1))) /\
+  n / 1000 + (if n mod 1000 =? 0 then 0 else 1) = (n + 999) / 1000 /\
+  1 <= n / 1000 + (if n mod 1000 =? 0 then 0 else 1) <= 9223372036854776.
+Proof.
+  intros W E Ep A Hn Hv. cbv zeta.
+  pose proof (exec_set_writes d now nowms c k v [px; nb] _ hint W E (set_parse_px px nb n Ep A)) as X.
+  cbv zeta in X.
+  assert (C : set_conflict (mkSetOpts false false false false None (Some n) None)
+              || ex_overflow now (o_ex (mkSetOpts false false false false None (Some n) None)) = false).
+  { unfold set_conflict, ex_overflow, nonpos, isSome. cbn.
+    replace (n <=? 0) with false by (symmetry; apply Z.leb_gt; lia). reflexivity. }
+  assert (S : set_writes (mkSetOpts false false false false None (Some n) None) (view d now k)).
+  { unfold set_writes. destruct (view d now k) as [[[| | | | |] t]|]; try contradiction; cbn; auto. }
+  destruct (X C S) as (R1 & R2 & _).
+  assert (In64 : n <= 9223372036854775807).
+  { unfold atoi64 in A. destruct (parse_int_unbounded nb); [|discriminate].
+    destruct (in_int64 z) eqn:I; [|discriminate]. injection A as <-.
+    unfold in_int64, int64_max in I. apply andb_true_iff in I as [_ I]. apply Z.leb_le in I. lia. }
+  pose proof (ceil_div_1000 n ltac:(lia)) as CE.
+  split; [rewrite R1; reflexivity|]. split; [|split; [symmetry; exact CE|]].
+  - rewrite R2. unfold set_deadline. cbn [o_exat o_px]. rewrite CE, Z.add_assoc. reflexivity.
+  - rewrite <- CE.
+    assert (1 <= (n + 999) / 1000) by (apply Z.div_le_lower_bound; lia).
+    assert ((n + 999) / 1000 < 9223372036854777) by (apply Z.div_lt_upper_bound; lia).
+    lia.
+Qed.
